@@ -42,6 +42,7 @@ type session = {
   h : C.hash array;
   hlive : C.hnode list array; hdead : C.hnode list array;
   mutable node_seq : int;
+  mutable bset : C.bitset;
   mutable dl : C.dlist; mutable labs : int list; mutable lnode_seq : int;
   mutable pool : C.addr list; mutable plive : C.addr list;
   mutable tree : C.tree; mutable tlive : (int * C.z) list; mutable tnode_seq : int;   (* live nodes: (id, key) in insertion order *)
@@ -155,7 +156,8 @@ let tree_state (s : session) (full : bool) : string =
   let b = Buffer.create 64 in
   let budget = ref (if full || List.length s.tlive <= 12 then 64 else 0) in
   List.iter (fun c -> h := hmix !h (zint (z_of_cz c)); if !budget > 0 then (Buffer.add_string b (zi c ^ ","); decr budget)) shape;
-  Printf.sprintf "n=%d sh=%d s=[%s]" (List.length s.tlive) !h (Buffer.contents b)
+  (* ok = the PROVEN state checker TreeGeneral.tree_state_ok evaluated on the model state (C18_tree_checked_state_semantics) *)
+  Printf.sprintf "n=%d ok=%d sh=%d s=[%s]" (List.length s.tlive) (if C.tree_state_ok s.tree then 1 else 0) !h (Buffer.contents b)
 
 let tree_cmd (s : session) (t : string list) : string =
   match t with
@@ -178,6 +180,34 @@ let tree_cmd (s : session) (t : string list) : string =
       Printf.sprintf "rem=%d %s" id (tree_state s false) end
   | "g" :: key :: _ -> Printf.sprintf "get=%s %s" (zi (C.tree_get s.tree (cs key))) (tree_state s false)
   | "d" :: _ -> tree_state s true
+  | _ -> "badop"
+
+(* ---- bit set *)
+let bitset_cmd (s : session) (t : string list) : string =
+  let b = s.bset in
+  let size = z_of_cz b.C.b_size in
+  let fin ?(res = "") (((e, a'), b') : (C.verr * C.arena) * C.bitset) =
+    s.arena <- a'; s.bset <- b';
+    let n = Z.to_int (z_of_cz b'.C.b_size) in
+    let h = ref 7 in
+    for i = 0 to n - 1 do h := hmix !h (if C.bs_bit_at b' (ci i) then 1 else 0) done;
+    Printf.sprintf "e=%d %sn=%d c=%s d=%s h=%d w0=%s" (errc e) res n (zi b'.C.b_cap) (canon b'.C.b_data) !h
+      (if n = 0 then "0" else match b'.C.b_words with w :: _ -> zi w | [] -> "0") in
+  let same b' = ((C.EOk, s.arena), b') in
+  match t with
+  | "z" :: n :: v :: _ -> fin (C.bs_resize_pub mok s.arena b (cs n) (v <> "0"))
+  | "a" :: v :: _ -> fin (C.bs_append mok s.arena b (v <> "0"))
+  | "s" :: i :: v :: _ -> if Z.sign size = 0 then "skip" else fin (same (C.bs_set_bit b (cz_of_z (Z.rem (Z.of_string i) size)) (v <> "0")))
+  | "g" :: i :: _ -> if Z.sign size = 0 then "skip" else
+      let r = C.bs_bit_at b (cz_of_z (Z.rem (Z.of_string i) size)) in fin ~res:(Printf.sprintf "bit=%d " (if r then 1 else 0)) (same b)
+  | ("f" | "c") as op :: st :: cnt :: _ ->
+    let st = Z.rem (Z.of_string st) (Z.succ size) in
+    let cnt = Z.rem (Z.of_string cnt) (Z.succ (Z.sub size st)) in
+    fin (same (if op = "f" then C.bs_fill_bits b (cz_of_z st) (cz_of_z cnt) else C.bs_clear_bits b (cz_of_z st) (cz_of_z cnt)))
+  | "ca" :: _ -> fin (same (C.bs_clear_all b))
+  | "fa" :: _ -> fin (same (C.bs_fill_all b))
+  | "t" :: n :: _ -> fin (same (C.bs_truncate b (cs n)))
+  | "x" :: _ -> let (a', b') = C.bs_release s.arena b in fin ((C.EOk, a'), b')
   | _ -> "badop"
 
 (* ---- list / pool *)
@@ -276,7 +306,7 @@ let bv_cmd (w : string) (t : string list) : string =
 let new_session minb st =
   { arena = C.arena_init (cs minb) (cs st); direct = []; v = Array.make 4 C.vec_empty; h = Array.make 2 C.hash_empty;
     hlive = Array.make 2 []; hdead = Array.make 2 []; node_seq = 0; tree = C.tree_empty; tlive = []; tnode_seq = 2;
-    dl = C.dlist_empty; labs = []; lnode_seq = 1; pool = []; plive = [] }
+    bset = C.bitset_empty; dl = C.dlist_empty; labs = []; lnode_seq = 1; pool = []; plive = [] }
 
 let () =
   try
@@ -287,7 +317,7 @@ let () =
         match toks, !sess with
         | [], _ -> ""
         | "N" :: minb :: st :: _, _ -> let s = new_session minb st in sess := Some s; reset_strs (); "N " ^ arena_dump s.arena
-        | ("AO" | "AR" | "AF" | "AZ" | "AS" | "V" | "H" | "T" | "L" | "P") :: _, None -> "nosession"
+        | ("AO" | "AR" | "AF" | "AZ" | "AS" | "AD" | "AG" | "V" | "H" | "T" | "L" | "P" | "K") :: _, None -> "nosession"
         | "AO" :: size :: _, Some s ->
           let (r, a') = C.alloc_oneshot mok s.arena (cs size) in s.arena <- a';
           "AO " ^ canon r ^ " " ^ arena_dump a'
@@ -302,9 +332,20 @@ let () =
             s.arena <- C.free_reusable s.arena p (if usealloc <> "0" then asz else req);
             s.direct <- remove_nth s.direct i;
             "AF " ^ canon (Some p) ^ " " ^ arena_dump s.arena end
+        | "AD" :: nt :: d :: _, Some s ->
+          let (r, a') = C.arena_dup mok s.arena (unhex d) (nt <> "0") in s.arena <- a';
+          (match r with
+           | Some (p, bytes) -> "AD " ^ canon (Some p) ^ " b=" ^ String.concat "" (List.map (fun c -> Printf.sprintf "%02x" (Z.to_int (z_of_cz c) land 255)) bytes) ^ " " ^ arena_dump a'
+           | None -> "AD null b=- " ^ arena_dump a')
+        | "AG" :: d :: _, Some s ->
+          let (r, a') = C.arena_string_set mok s.arena (ci 27) (unhex d) in s.arena <- a';
+          (match r with
+           | Some (None, _) -> "AG e=0 emb=1 p=null " ^ arena_dump a'
+           | Some (Some p, _) -> "AG e=0 emb=0 p=" ^ canon (Some p) ^ " " ^ arena_dump a'
+           | None -> "AG e=1 emb=0 p=null " ^ arena_dump a')
         | "AZ" :: hard :: _, Some s ->
           s.arena <- C.arena_reset s.arena (hard <> "0");
-          s.tree <- C.tree_empty; s.tlive <- []; s.dl <- C.dlist_empty; s.labs <- []; s.pool <- []; s.plive <- [];
+          s.tree <- C.tree_empty; s.tlive <- []; s.dl <- C.dlist_empty; s.labs <- []; s.pool <- []; s.plive <- []; s.bset <- C.bitset_empty;
           s.direct <- []; Array.fill s.v 0 4 C.vec_empty; Array.fill s.h 0 2 C.hash_empty; Array.fill s.hlive 0 2 []; Array.fill s.hdead 0 2 [];
           "AZ " ^ arena_dump s.arena
         | "AS" :: _, Some s ->
@@ -312,6 +353,7 @@ let () =
           Printf.sprintf "AS %s %s %s %s" (zi bc) (zi used) (zi reserved) (zi overhead)
         | "V" :: k :: rest, Some s -> let r = vec_cmd s (int_of_string k) rest in Printf.sprintf "V %s ah=%d" r (arena_hash s.arena)
         | "H" :: k :: rest, Some s -> let r = hash_cmd s (int_of_string k) rest in Printf.sprintf "H %s ah=%d" r (arena_hash s.arena)
+        | "K" :: rest, Some s -> let r = bitset_cmd s rest in Printf.sprintf "K %s ah=%d" r (arena_hash s.arena)
         | "L" :: rest, Some s -> let r = list_cmd s rest in Printf.sprintf "L %s ah=%d" r (arena_hash s.arena)
         | "P" :: rest, Some s -> let r = pool_cmd s rest in Printf.sprintf "P %s ah=%d" r (arena_hash s.arena)
         | "T" :: rest, Some s -> let r = tree_cmd s rest in Printf.sprintf "T %s ah=%d" r (arena_hash s.arena)
